@@ -83,11 +83,25 @@ def write_clean_trace(evs, path):
 
 def drive_and_validate(ctx, exe, executions, spec_dir, module, cfg, *, label="run", nbatch=None, harness_timeout=300,
                        tlc_timeout=900, env=None, harness_args=None, tlc_env=None, sample_every=None, end_line="END",
-                       lenient_cfg=None, on_fired=None, xmx="3g"):
+                       lenient_cfg=None, on_fired=None, xmx="3g", stale_errors=0.3):
     """Runs all executions (batched), validates each batch with TLC. Records violations in ctx.
     Returns number of executions accepted."""
     if not executions:
         return 0
+    if stale_errors:
+        # every script-driven adapter understands "ERR <code>" (vh_core.h): a stale thread-local error code is left
+        # behind before some calls. It produces no event, so the specification requires that it changes nothing.
+        import random
+        prng = random.Random(ctx.seed * 7919 + len(executions))
+        poisoned = []
+        for ex in executions:
+            ex = list(ex)
+            if len(ex) > 2 and prng.random() < stale_errors:
+                for _ in range(prng.choice([1, 1, 2, 3])):
+                    ex.insert(prng.randrange(1, len(ex)), "ERR %d" % prng.choice([1, 2, 3, 4, 5, 6, 7, 10, 10, 10, 11, 14, 15, 16, 25, 26, 27, 34]))
+            poisoned.append(ex)
+        executions = poisoned
+        ctx.extra["executions_with_stale_error_codes"] = sum(1 for ex in executions if any(l.startswith("ERR ") for l in ex))
     nbatch = nbatch or min(NCPU, max(1, len(executions) // 20))
     batches = _chunks(executions, nbatch)
     wd = os.path.join(ctx.outdir, label)
@@ -447,7 +461,7 @@ TSAN_ENV = {"TSAN_OPTIONS": "halt_on_error=1:exitcode=66:report_signal_unsafe=0:
 def race_scan(ctx, harness_name, src, blocks, *, label="race", nbatch=None, timeout=900, max_confirm=2):
     from . import build
     blocks = [(p, sc) for p, sc in blocks if not p.startswith("dfs")]
-    if not blocks:
+    if not blocks or os.environ.get("VERIF_NO_RACE_SCAN"):
         return 0
     exe = build.build_harness(harness_name + "_tsan", [src], cflags=["-Wno-unused-function"], wrap=True, variant="tsan")
     nbatch = nbatch or min(NCPU, max(1, len(blocks) // 10))
@@ -491,8 +505,13 @@ def race_scan(ctx, harness_name, src, blocks, *, label="race", nbatch=None, time
                 break
             rd = ctx.new_replay_dir(label)
             lines = _vs_script(ex["policy"], ex["scenario"]) + ["END"]
-            sp, tp, evs, died, err2 = run_harness(exe, lines, rd, "replay", timeout=timeout, env=TSAN_ENV)
-            again = any(e.get("e") == "Died" and e.get("sig") == 166 for e in evs)
+            again = False
+            err2 = ""
+            for _try in range(3):
+                sp, tp, evs, died, err2 = run_harness(exe, lines, rd, "replay", timeout=timeout, env=TSAN_ENV)
+                again = any(e.get("e") == "Died" and e.get("sig") == 166 for e in evs)
+                if again:
+                    break
             rep = ""
             for src_err in (err2, err):
                 i = src_err.find("WARNING: ThreadSanitizer")
@@ -507,7 +526,9 @@ def race_scan(ctx, harness_name, src, blocks, *, label="race", nbatch=None, time
                 ctx.extra["tsan_other_reports"] = ctx.extra.get("tsan_other_reports", 0) + 1
                 continue
             if not again:
-                raise CheckError("ThreadSanitizer report did not reproduce in isolation; replay dir %s" % rd)
+                # a report that does not repeat is not a verdict (DESIGN 3.1); it is recorded, not raised
+                ctx.inconclusive.append("ThreadSanitizer report did not reproduce in 3 isolated re-runs (%s)" % rd)
+                continue
             first = [l.strip() for l in rep.splitlines() if l.strip().startswith("#0") or "data race" in l][:3]
             ctx.violation("data race on library state (ThreadSanitizer, happens-before via the modelled mutexes) in scenario "
                           "%s under '%s': %s" % (ex["scenario"], ex["policy"][:60], " | ".join(first)), rd)
